@@ -77,7 +77,7 @@ def check(case):
     import desolver as de
     method = case["method"]
     fam = M.family(M.get(method))
-    rich = fam == "richardson"
+    rich = False     # (since fix 3f44fc1 Richardson wrappers provide one Hermite piece per step and are judged like every other method)
     attrs = dict(method=method, family=fam)
     t0, tf = case["t0"], case["tf"]
     backward = tf < t0
